@@ -218,9 +218,11 @@ def make_window_harness():
             m = Module()
             m.submodules.window = w = self.window
             m.submodules.decoder = d = self.decoder
-            # same wiring as UTMITranslator.elaborate
+            # same wiring as UTMITranslator.elaborate (which masks the decoder with the window's `busy`; a
+            # tree carrying proposed_fixes/C22-rxcmd-masked-by-pending-register-op.diff uses the narrower
+            # `read_data_phase` output instead, and this wrapper follows it)
             m.d.comb += [
-                d.register_operation_in_progress.eq(w.busy),
+                d.register_operation_in_progress.eq(getattr(w, "read_data_phase", w.busy)),
                 w.ulpi_data_in.eq(self.ulpi.data.i),
                 w.ulpi_dir.eq(self.ulpi.dir.i),
                 w.ulpi_next.eq(self.ulpi.nxt.i),
